@@ -98,7 +98,7 @@ class CenterOfMassOriginModel(AutoSerialize):
     ):
         """ """
         nqx, nqy = self.dataset.shape[-2:]
-        tensor_3d = self.tensor.view((-1, nqx, nqy))
+        tensor_3d = self.tensor.reshape((-1, nqx, nqy))
 
         qx = torch.arange(nqx, dtype=torch.float, device=self.device)
         qy = torch.arange(nqy, dtype=torch.float, device=self.device)
@@ -133,7 +133,7 @@ class CenterOfMassOriginModel(AutoSerialize):
         self._origin_measured = (
             validate_tensor(value, "measured origin", dtype=torch.float)
             .to(self.device)
-            .view((-1, 2))
+            .reshape((-1, 2))
             .expand((self.num_dps, 2))
         )
 
@@ -162,7 +162,7 @@ class CenterOfMassOriginModel(AutoSerialize):
         else:
             probe_positions = validate_tensor(
                 probe_positions, "probe positions", dtype=torch.float
-            ).view((-1, 2))
+            ).reshape((-1, 2))
             if probe_positions.shape != self.origin_measured.shape:
                 raise ValueError("probe positions shape must match the measured origins.")
 
@@ -220,7 +220,7 @@ class CenterOfMassOriginModel(AutoSerialize):
         self._origin_fitted = (
             validate_tensor(value, "fitted origin", dtype=torch.float)
             .to(self.device)
-            .view((-1, 2))
+            .reshape((-1, 2))
             .expand((self.num_dps, 2))
         )
 
@@ -238,7 +238,7 @@ class CenterOfMassOriginModel(AutoSerialize):
         origin_fitted = self.origin_fitted
         H, W = self.dataset.shape[-2:]
 
-        tensor_3d = self.tensor.view((-1, 1, H, W))
+        tensor_3d = self.tensor.reshape((-1, 1, H, W))
         shifted_tensor_3d = torch.empty_like(tensor_3d)
         coordinate = torch.as_tensor(origin_coordinate, dtype=torch.float, device=self.device)
 
